@@ -1,7 +1,9 @@
 /-
-  C05 — PUB/SUB.  Property theorems about the executable models Model/Sub.lean and
-  Model/Pub.lean (tied to sub.c / pub.c by the SIM correspondence of vlib/props/c05.py).
-  Helper lemmas live in Proofs/{SubMatch,SubCtx,SubInv,SubCid,PubInv}.lean.
+  C05 — PUB/SUB.  Property theorems about the executable models Model/Sub.lean,
+  Model/Pub.lean and Model/Xsub.lean (tied to sub.c / pub.c / xsub.c + msgqueue.c by the SIM
+  correspondence of vlib/props/c05.py).  Helper lemmas live in
+  Proofs/{SubMatch,SubCtx,SubInv,SubCid,PubInv,XsubInv}.lean; the simulation proofs behind the
+  three `*_model_satisfies_judge` theorems in Proofs/{SubSim,SubJudge,PubSim,PubJudge,XsubJudge}.lean.
 
   Reading guide: `Sub.reach evs` / `Pub.reach evs` is the model state after ANY list of
   harness events; `LiveCtx s c` says `c` is the socket-level context of an opened socket or
@@ -10,6 +12,10 @@
 import NngModel.Proofs.SubInv
 import NngModel.Proofs.SubCid
 import NngModel.Proofs.PubInv
+import NngModel.Proofs.SubJudge
+import NngModel.Proofs.PubJudge
+import NngModel.Proofs.XsubInv
+import NngModel.Proofs.XsubJudge
 namespace Nng.C05
 open Nng Nng.Proto
 
@@ -355,6 +361,103 @@ theorem T8_pub_always_writable (s : State) (ho : s.opened = true) (hc : s.closed
 
 end PUB
 
+/-! ## raw SUB (xsub.c over the socket's upper read queue) -/
+section XSUB
+open Nng.Xsub
+
+/-- X1 (every arrival accounted for, in order, at most once): in every reachable state every
+    message the transport delivered is in exactly one of: handed to the application, still
+    queued, discarded (`Perm`); what was handed over followed by what is queued is a
+    subsequence of the arrivals, whose ghost ids strictly increase — so nothing is
+    duplicated, reordered or invented -/
+theorem X1_arrivals_accounted (evs : List Ev) :
+    ((reach evs).got ++ (reach evs).q ++ (reach evs).dropped).Perm (reach evs).arrived ∧
+    ((reach evs).got ++ (reach evs).q).Sublist (reach evs).arrived ∧
+    (reach evs).arrived.Pairwise (fun a b => a.gid < b.gid) ∧
+    ((reach evs).got ++ (reach evs).q).Pairwise (fun a b => a.gid < b.gid) ∧
+    ((reach evs).got.map (·.gid)).Nodup := by
+  have hi := reach_inv evs
+  have hp := hi.gids.sublist hi.hist
+  refine ⟨hi.acct, hi.hist, hi.gids, hp, ?_⟩
+  rw [List.Nodup, List.pairwise_map]
+  exact (List.pairwise_append.1 hp).1.imp (fun hlt => Nat.ne_of_lt hlt)
+
+/-- X2 (arrival rule — whole drops only when the queue is full): an arrival goes to the oldest
+    waiting receiver if there is one; otherwise it is queued LAST while fewer than `cap`
+    messages are queued; only when the queue is full is it discarded — the whole arriving
+    message, the queue untouched -/
+theorem X2_arrival_rule (s : State) (gm : GMsg) :
+    (∀ r rs, s.getq = r :: rs →
+        tryput s gm = ({ s with getq := rs, got := s.got ++ [gm] }, [Out.done r.aio 0 (some ⟨[], gm.body⟩) false])) ∧
+    (s.getq = [] → s.q.length < s.cap → tryput s gm = ({ s with q := s.q ++ [gm] }, [])) ∧
+    (s.getq = [] → s.cap ≤ s.q.length → tryput s gm = ({ s with dropped := s.dropped ++ [gm] }, [])) := by
+  refine ⟨?_, ?_, ?_⟩
+  · intro r rs h; simp [tryput, h, deliver]
+  · intro h hroom; simp [tryput, h, hroom]
+  · intro h hfull
+    have : ¬ s.q.length < s.cap := by omega
+    simp [tryput, h, this]
+
+/-- X3 (receive): in every reachable state a receive on the socket with a free aio returns the
+    OLDEST queued message, bytes unchanged, in EVERY mode (non-blocking included — the F13
+    repair); with nothing queued a non-blocking receive fails with NNG_EAGAIN and a
+    zero-timeout one with NNG_ETIMEDOUT, both at once -/
+theorem X3_receive_oldest (evs : List Ev) (a : Nat) (mode : Mode) (hfree : (reach evs).getq.any (·.aio == a) = false) :
+    (∀ m ms, (reach evs).q = m :: ms →
+      opRecv (reach evs) none a mode =
+        ({ reach evs with q := ms, got := (reach evs).got ++ [m] }, [Out.done a 0 (some ⟨[], m.body⟩) false])) ∧
+    ((reach evs).q = [] → (opRecv (reach evs) none a .nb).2 = [Out.done a Err.eagain none false] ∧
+      (opRecv (reach evs) none a (.ms 0)).2 = [Out.done a Err.etimedout none false]) := by
+  have hi := reach_inv evs
+  refine ⟨?_, ?_⟩
+  · intro m ms hq
+    have hg : (reach evs).getq = [] := by
+      cases hgq : (reach evs).getq with
+      | nil => rfl
+      | cons r rs => have := hi.wait (by simp [hgq]); rw [hq] at this; cases this
+    unfold opRecv
+    simp only [hfree, Bool.false_eq_true, if_false]
+    exact aioGet_deliver _ a mode m ms hg hq
+  · intro hq
+    unfold opRecv
+    simp only [hfree, Bool.false_eq_true, if_false]
+    rw [aioGet_wait _ a .nb hq, aioGet_wait _ a (.ms 0) hq]
+    exact ⟨rfl, rfl⟩
+
+/-- X4 (feeds C15): in every reachable state the receive descriptor of the raw socket is
+    readable iff a non-blocking receive returns a message at once -/
+theorem X4_readable_iff_nb_recv_succeeds (evs : List Ev) (a : Nat) (hfree : (reach evs).getq.any (·.aio == a) = false) :
+    (readable (reach evs) = true ↔ ∃ m, (opRecv (reach evs) none a .nb).2 = [Out.done a 0 (some m) false]) ∧
+    (readable (reach evs) = false ↔ (opRecv (reach evs) none a .nb).2 = [Out.done a Err.eagain none false]) := by
+  have h3 := X3_receive_oldest evs a .nb hfree
+  cases hq : (reach evs).q with
+  | nil =>
+    have := (h3.2 hq).1
+    simp [readable, hq, this]
+  | cons m ms =>
+    have := h3.1 m ms hq
+    simp [readable, hq, this]
+
+/-- X5 (occupancy): the queue never holds more than depth + 1 messages (the + 1 only after a
+    shrink of NNG_OPT_RECVBUF below the fill level), and no receive is ever parked while a
+    message is queued -/
+theorem X5_queue_bounded (evs : List Ev) :
+    (reach evs).q.length ≤ (reach evs).cap + 1 ∧ ((reach evs).getq ≠ [] → (reach evs).q = []) :=
+  ⟨(reach_inv evs).len, (reach_inv evs).wait⟩
+
+/-- X6 (resize): NNG_OPT_RECVBUF keeps the NEWEST depth + 1 queued messages in order and
+    discards only older ones, whole -/
+theorem X6_resize_keeps_newest (s : State) (cap : Nat) :
+    (resize s cap).q = s.q.drop (s.q.length - (cap + 1)) ∧
+    (resize s cap).dropped = s.dropped ++ s.q.take (s.q.length - (cap + 1)) ∧ (resize s cap).cap = cap ∧
+    (s.q.length ≤ cap + 1 → (resize s cap).q = s.q) := by
+  refine ⟨rfl, rfl, rfl, ?_⟩
+  intro h
+  have : s.q.length - (cap + 1) = 0 := by omega
+  simp [resize, this]
+
+end XSUB
+
 /-! ## non-vacuity: the hypotheses of the theorems are met by concrete reachable states -/
 section Examples
 
@@ -392,24 +495,91 @@ example : (Nng.Pub.reach pubDemo).pipes.map (fun p => (p.busy.map (·.m.body), p
     p.listed, p.q.length == p.cap)) = [(some [1], [[3]], [[2]], true, true)] := by decide
 example : (Nng.Pub.step (Nng.Pub.reach pubDemo) (.sendDone 0 0)).2 = [.rv 0, .psend 0 ⟨[], [3]⟩] := by decide
 
+/-- raw SUB with depth 2: three arrivals (the third is dropped whole), one parked-free receive -/
+def xsubDemo : List Ev :=
+  [.openSock "sub" true, .setopt none "recv-buffer" "int" 2, .pipeAdd 32,
+   .recvDone 0 (.ok [1]), .recvDone 0 (.ok [2]), .recvDone 0 (.ok [3])]
+
+-- the queue is full, the third message was discarded, the descriptor is readable and aio 0 is free (hypotheses of X3 / X4)
+example : (Nng.Xsub.reach xsubDemo).q.map (·.body) = [[1], [2]] ∧ (Nng.Xsub.reach xsubDemo).dropped.map (·.body) = [[3]] ∧
+    Nng.Xsub.readable (Nng.Xsub.reach xsubDemo) = true ∧ (Nng.Xsub.reach xsubDemo).getq.any (·.aio == 0) = false := by decide
+-- a non-blocking receive returns the oldest message; a shrink to depth 0 keeps the newest one
+example : (Nng.Xsub.step (Nng.Xsub.reach xsubDemo) (.recv none 0 .nb)).2 = [.done 0 0 (some ⟨[], [1]⟩) false] := by decide
+example : (Nng.Xsub.reach (xsubDemo ++ [.setopt none "recv-buffer" "int" 0])).q.map (·.body) = [[2]] := by decide
+-- a parked receiver gets the next arrival at once
+example : (Nng.Xsub.step (Nng.Xsub.reach [.openSock "sub" true, .pipeAdd 32, .recv none 4 .inf]) (.recvDone 0 (.ok [9]))).2 =
+    [.rv 0, .done 4 0 (some ⟨[], [9]⟩) false, .parm 0] := by decide
+
 end Examples
 
-/-! ## what is NOT proved
+/-! ## the models satisfy the executable specification on every event sequence
 
-  `∀ evs, subJudge (trace of Sub.step on evs) = none` (and the same for PUB): that the
-  model's own traces satisfy the executable trace predicates of Spec/PubSub.lean.  The
-  judges are run on the model's traces by the check (model = implementation on every
-  generated history and the implementation's trace is judged), but the general statement
-  needs a simulation relation between judge state and model state and is left open. -/
+  `trace step s evs` zips the events with the model's outputs; `subJudge` / `pubJudge` are the
+  trace predicates of Spec/PubSub.lean that the check also runs on the implementation's
+  traces.  Proof: the judge's state is a FUNCTION of the model's state (`Sub.absJ`, `Pub.absJ`:
+  contexts / pipes with their topics, depth, queued bodies, waiting aios — nothing else), and one
+  judge step on the model's outputs lands on that function of the model's next state
+  (`Sub.sim_step`, `Pub.sim_step`, Proofs/{SubSim,SubJudge,PubSim,PubJudge}.lean). -/
 
 def trace {σ : Type} (step : σ → Ev → σ × List Out) : σ → List Ev → List (Ev × List Out)
   | _, [] => []
   | s, e :: es => (e, (step s e).2) :: trace step (step s e).1 es
 
-def sub_model_satisfies_judge_statement : Prop :=
-  ∀ evs, Nng.PubSubSpec.subJudge (trace Nng.Sub.step {} evs) = none
+/-- JUDGE (SUB): for every event sequence that does not contain the API misuse `abort aio 0`
+    (aborting an operation with the success code: the model, like the library, then completes
+    the receive with 0 and no message, which the specification rejects) the trace of the SUB
+    model is accepted by `subJudge` -/
+theorem sub_model_satisfies_judge (evs : List Ev) (hn : Nng.Sub.NoAbort0 evs) :
+    Nng.PubSubSpec.subJudge (trace Nng.Sub.step {} evs) = none := by
+  have : ∀ (evs : List Ev) (s : Nng.Sub.State), trace Nng.Sub.step s evs = Nng.Sub.traceOf s evs := by
+    intro evs
+    induction evs with
+    | nil => intro s; rfl
+    | cons e es ih => intro s; simp [trace, Nng.Sub.traceOf, ih]
+  rw [this]
+  exact Nng.Sub.sub_judge_ok evs hn
 
-def pub_model_satisfies_judge_statement : Prop :=
-  ∀ evs, Nng.PubSubSpec.pubJudge (trace Nng.Pub.step {} evs) = none
+/-- JUDGE (PUB): for EVERY event sequence (no hypothesis) the trace of the PUB model is accepted
+    by `pubJudge` -/
+theorem pub_model_satisfies_judge (evs : List Ev) :
+    Nng.PubSubSpec.pubJudge (trace Nng.Pub.step {} evs) = none := by
+  have : ∀ (evs : List Ev) (s : Nng.Pub.State), trace Nng.Pub.step s evs = Nng.Pub.traceOf s evs := by
+    intro evs
+    induction evs with
+    | nil => intro s; rfl
+    | cons e es ih => intro s; simp [trace, Nng.Pub.traceOf, ih]
+  rw [this]
+  exact Nng.Pub.pub_judge_ok evs
+
+/-- JUDGE (raw SUB): for every event sequence without `abort aio 0` the trace of the XSUB model
+    is accepted by `xsubJudge` (every arrival taken; waiter served in the same step; a message
+    is lost only when the queue is full, and then the whole arriving one; receives return the
+    oldest queued message unaltered; a non-blocking receive fails only if nothing is queued;
+    readable iff something is queued) -/
+theorem xsub_model_satisfies_judge (evs : List Ev) (hn : Nng.Xsub.NoAbort0 evs) :
+    Nng.PubSubSpec.xsubJudge (trace Nng.Xsub.step {} evs) = none := by
+  have : ∀ (evs : List Ev) (s : Nng.Xsub.State), trace Nng.Xsub.step s evs = Nng.Xsub.traceOf s evs := by
+    intro evs
+    induction evs with
+    | nil => intro s; rfl
+    | cons e es ih => intro s; simp [trace, Nng.Xsub.traceOf, ih]
+  rw [this]
+  exact Nng.Xsub.xsub_judge_ok evs hn
+
+example : Nng.Xsub.NoAbort0 (xsubDemo ++ [.recv none 1 .inf, .abort 1 7, .close]) := by
+  intro e he a h
+  subst h
+  simp [xsubDemo] at he
+
+-- non-vacuity: the demo histories above satisfy the hypothesis (and reach states with waiters,
+-- full queues, several contexts), so the theorem speaks about them
+example : Nng.Sub.NoAbort0 subDemo := by
+  intro e he a h
+  subst h
+  simp [subDemo] at he
+example : Nng.Sub.NoAbort0 (subDemo ++ [.cancel 3, .abort 3 5, .ctxClose 0, .close]) := by
+  intro e he a h
+  subst h
+  simp [subDemo] at he
 
 end Nng.C05
